@@ -83,5 +83,46 @@ def runGeom (scale f : K) (fuel : Nat) : Option (K × Nat) → List K → List (
     | none => [none]
     | some r => some r :: runGeom scale f fuel (some r) ts
 
+/-! ### `GeometricInterrupts.next` as the code computes it
+
+```
+t_min = scale * factor**-0.5            (first call)      |  self._t_next * factor**0.5   (later)
+t_min = max(t, t_min)
+i = np.log(t_min / scale) / np.log(factor)
+self._t_next = scale * factor ** np.ceil(i)
+```
+`log` is external (libm / numpy): the value `np.ceil(i)` enters the model as an oracle parameter `e`
+(an integer); `sq`, `sqInv` are the values of `factor**0.5`, `factor**-0.5` (external `pow` as well).
+Everything else is the code's own arithmetic.  `Props/C09.lean` proves the property for *every*
+oracle that is a ceiling of the logarithm up to a relative tolerance of its argument. -/
+
+/-- `f ** n` for a natural exponent -/
+def powNat (f : K) : Nat → K
+  | 0 => ((1 : Nat) : K)
+  | n + 1 => powNat f n * f
+
+/-- `factor ** e` for an integer exponent -/
+def powInt (f : K) (e : Int) : K :=
+  if 0 ≤ e then powNat f e.toNat else ((1 : Nat) : K) / powNat f (-e).toNat
+
+/-- the estimate `t_min` before `max(t, t_min)`; `last = self._t_next` (`none` before the first call) -/
+def geomTmin0 (scale sq sqInv : K) : Option K → K
+  | none => scale * sqInv
+  | some v => v * sq
+
+/-- `t_min` of `GeometricInterrupts.next` -/
+def geomTmin (scale sq sqInv : K) (last : Option K) (t : K) : K :=
+  pyMax t (geomTmin0 scale sq sqInv last)
+
+/-- the answer for the oracle value `e = ceil(log(t_min/scale)/log(factor))` -/
+def geomCodeAnswer (scale f : K) (e : Int) : K := scale * powInt f e
+
+/-- a history of calls `(query, oracle value)`: the list of `(t_min, answer)` -/
+def runGeomCode (scale f sq sqInv : K) : Option K → List (K × Int) → List (K × K)
+  | _, [] => []
+  | last, (t, e) :: rest =>
+    let a := geomCodeAnswer scale f e
+    (geomTmin scale sq sqInv last t, a) :: runGeomCode scale f sq sqInv (some a) rest
+
 end
 end PdeVerif.Interrupts
